@@ -80,7 +80,7 @@ const preludeBase = `(set-option :produce-models true)
 (define-fun sat ((s Str) (i Int)) Int (select (sbase s) (+ (soff s) i)))
 (define-fun str_eq ((a Str) (b Str)) Bool (and (= (slen a) (slen b)) (forall ((k!q Int)) (=> (and (<= 0 k!q) (< k!q (slen a))) (= (sat a k!q) (sat b k!q))))))
 (define-fun wrap64 ((x Int)) Int (- (mod (+ x 9223372036854775808) 18446744073709551616) 9223372036854775808))
-(declare-const emptybase (Array Int Int))
+(define-fun emptybase () (Array Int Int) ((as const (Array Int Int)) 0))
 (define-fun emptystr () Str (mkstr emptybase 0 0))
 (define-fun fpzero () F64 ((_ to_fp 11 53) RNE 0.0))
 (define-fun nilval () Val (mkval 0 0 fpzero emptystr false))
@@ -515,6 +515,18 @@ func (s *State) assume(t string) {
 		return
 	}
 	s.items = append(s.items, Item{Assume: t})
+}
+
+// axiom records a defining fact about a FRESH symbol (a fresh array holding the
+// result of a concatenation, append, copy, ...). Such a fact is satisfiable
+// whatever the other symbols are, so it holds unconditionally and is kept at
+// top level when paths are merged (quantifiers inside path guards defeat
+// pattern-based instantiation).
+func (s *State) axiom(t string) {
+	if t == "true" || s.quiet {
+		return
+	}
+	s.items = append(s.items, Item{Decl: "(assert " + t + ")"})
 }
 
 func (s *State) declare(name, sort string) {
